@@ -196,6 +196,7 @@ def run(ctx):
 
     import c05
     c05.check_input_loop(ctx, "R15-e")
+    loop_state(ctx, "R15-f")
 
 
 SESSION = "rustfmt_nightly::Session"
@@ -291,3 +292,40 @@ def session_state(ctx, rid):
                                 ["src/lib.rs"])
                 elif bad:
                     r.violation(rid, "Session.%s caches %s" % (fname, fty), "per-input state kept on the Session", ["src/lib.rs"])
+
+
+def loop_state(ctx, rid):
+    """R15-f: nothing but the iterator and the Session is carried from one input to the next"""
+    from common import loops_of, loop_carried
+    p, r = ctx.p, ctx.r
+    r.rule(rid, "bin `format`: liveness over the per-input loop — the only locals whose value survives from one iteration to the "
+                "next are the input iterator and the Session (whose writes are governed by R15-d); any other loop-carried local "
+                "(a cache, a `last config`, a counter that reaches formatting) makes an input's result depend on the inputs before it")
+    f = p.fns.get("rustfmt::format")
+    if f is None:
+        r.undecidable(rid, "rustfmt::format not found")
+        return
+    n = 0
+    for lp in loops_of(f):
+        hdrs = [c.bb for c in f.calls() if c.bb in lp["blocks"] and c.declared == "std::iter::Iterator::next"]
+        body_calls = [c for c in f.calls() if c.bb in lp["blocks"]]
+        if not any(c.name.endswith("format_and_emit_report") or c.name.endswith("::override_config") for c in body_calls):
+            continue
+        for h in hdrs:
+            n += 1
+            for l in sorted(loop_carried(f, lp["blocks"], h)):
+                ty = f.locals[l]
+                name = f.local_names.get(l, "_%d" % l)
+                ok = ty.startswith("rustfmt_nightly::Session<") or "::IntoIter<" in ty or "::Iter<" in ty
+                if ty == "bool":
+                    ds = f.defs().get(l, [])
+                    if all(k == "assign" and pl[2][0] == "use" and pl[2][1][0] == "k" for (bb, k, pl) in ds):
+                        continue   # drop flag
+                r.instance(rid, "loop-carried local `%s`: %s" % (name, short(ty)[:60]), "ok" if ok else "violation",
+                           "%s:%d" % (f.file, f.line))
+                if not ok:
+                    r.violation(rid, "format: local `%s` (%s) is carried across inputs" % (name, short(ty)[:50]),
+                                "`%s` is written in one iteration of the per-input loop and read in a later one: what is produced "
+                                "for a file depends on the files before it on the command line" % name,
+                                ["%s:%d" % (f.file, f.line)])
+    r.floor(rid, n, 1, "per-input loops analysed")
